@@ -303,15 +303,28 @@ Proof.
   - destruct (Nat.ltb_spec (rlen r) n); [|lia]. destruct (Nat.leb_spec n (rcap r)); [reflexivity|lia].
   - destruct (Nat.ltb_spec (rlen r) n); [|lia]. destruct (Nat.leb_spec n (rcap r)); [reflexivity|lia].
   - destruct (Nat.leb_spec n (rcap r)); [reflexivity|lia].
+  - rewrite Nat.min_l by lia. reflexivity.
 Qed.
+
+Lemma rcap_le_cells r : rcap r <= length (rcells r).
+Proof. unfold rcap. destruct (rkind r); lia. Qed.
+
+Lemma rcap_with_len r n : rcap (with_len r n) = rcap r.
+Proof. reflexivity. Qed.
+
+Lemma rcap_same r r' :
+  rkind r' = rkind r -> length (rcells r') = length (rcells r) -> rlim r' = rlim r -> rcap r' = rcap r.
+Proof. intros K L M. unfold rcap. rewrite K, L, M. reflexivity. Qed.
 
 Lemma root_write_props r o bs :
   o + length bs <= rcap r ->
   rlen (root_write o bs r) = rlen r /\ rcap (root_write o bs r) = rcap r /\
   rkind (root_write o bs r) = rkind r.
 Proof.
-  intros H. unfold root_write, with_cells, rcap. cbn. repeat split.
-  apply write_at_length. exact H.
+  intros H. pose proof (rcap_le_cells r) as Hc.
+  split; [reflexivity|]. split; [|reflexivity].
+  apply rcap_same; [reflexivity| |reflexivity].
+  unfold root_write, with_cells. cbn [rcells]. apply write_at_length. lia.
 Qed.
 
 Theorem fill_visible r v bs o l c :
@@ -323,7 +336,7 @@ Theorem fill_visible r v bs o l c :
     rcells r' = write_at (rcells r) o bs /\
     rlen r' = Nat.max (rlen r) (o + length bs) /\
     r_as_init v r' = Ok (o, Nat.max l (length bs)) /\
-    rwf r' /\ wf v r'.
+    rwf r' /\ wf v r' /\ rcap r' = rcap r.
 Proof.
   intros Hr Hw Hn EI EU Hk.
   destruct (view_inv v r Hr Hw Hn) as (l0 & c0 & E1 & E2 & H1 & H2).
@@ -353,7 +366,7 @@ Proof.
     assert (Hwf2 : wf v r2) by (apply (wf_mono v r); [rewrite R2; lia|exact Hw]).
     assert (C2 : rcap r2 = rcap r) by (unfold r2, with_len, rcap; cbn; exact W2).
     split; [exact W3|]. split; [reflexivity|]. split; [rewrite Hmax; exact R2|].
-    split; [|split; [|exact Hwf2]].
+    split; [|split; [|split; [exact Hwf2|exact C2]]].
     + destruct (wf_as_init v r2 Hwf2) as (l2 & E3 & H3). rewrite E3. f_equal. f_equal.
       rewrite R2 in H3. rewrite (vclamp_fix v _ (rcap r)) in H3 by lia. lia.
     + split; [rewrite R2, C2; lia|].
@@ -362,7 +375,7 @@ Proof.
     eexists. split; [reflexivity|].
     assert (Hwf1 : wf v r1) by (apply (wf_mono v r); [rewrite W1; lia|exact Hw]).
     split; [exact W3|]. split; [reflexivity|]. split; [rewrite W1; lia|].
-    split; [|split; [exact Hr1|exact Hwf1]].
+    split; [|split; [exact Hr1|split; [exact Hwf1|exact W2]]].
     pose proof (as_init_ext v r r1 W1) as E3. rewrite E3, E1. f_equal. f_equal. lia.
 Qed.
 
@@ -379,21 +392,22 @@ Theorem fill_visible_full r v bs o c :
     sub_list (rcells r') o (length bs) = bs /\
     firstn o (rcells r') = firstn o (rcells r) /\
     skipn (o + length bs) (rcells r') = skipn (o + length bs) (rcells r) /\
-    length (rcells r') = length (rcells r) /\
+    length (rcells r') = length (rcells r) /\ rcap r' = rcap r /\
     rwf r' /\ wf v r' /\
     exists l, r_as_init v r = Ok (o, l) /\ r_as_init v r' = Ok (o, Nat.max l (length bs)).
 Proof.
   intros Hr Hw Hn EU Hk.
   destruct (view_contract r v Hr Hw Hn) as (o0 & l & c0 & E1 & E2 & Hlc & Hcap & Hlen & _).
   rewrite E2 in EU. inversion EU; subst o0 c0. clear EU.
-  destruct (fill_visible r v bs o l c Hr Hw Hn E1 E2 Hk) as (r' & F & K & C & L & I & Hr' & Hw').
-  assert (Ho : o <= length (rcells r)) by (unfold rcap in Hcap; lia).
+  destruct (fill_visible r v bs o l c Hr Hw Hn E1 E2 Hk) as (r' & F & K & C & L & I & Hr' & Hw' & Hc').
+  pose proof (rcap_le_cells r) as Hcells.
+  assert (Ho : o <= length (rcells r)) by lia.
   exists r'. split; [exact F|]. split; [exact K|]. split; [exact C|]. split; [exact L|].
   split; [lia|]. rewrite C.
   split; [apply write_at_read_back; exact Ho|].
   split; [apply write_at_firstn; exact Ho|].
   split; [apply write_at_skipn; exact Ho|].
-  split; [apply write_at_length; unfold rcap in Hcap; lia|].
+  split; [apply write_at_length; lia|]. split; [exact Hc'|].
   split; [exact Hr'|]. split; [exact Hw'|]. exists l. split; [exact E1|exact I].
 Qed.
 
@@ -424,9 +438,9 @@ Proof.
   - inversion Hall as [|? ? Hk Ht]; subst.
     pose proof (pure_not_filled v r Hp) as Hn.
     destruct (fill_visible_full r v bs o c Hr Hw Hn EU Hk)
-      as (r1 & F & K & C & L & _ & _ & _ & _ & Hlen & Hr1 & Hw1 & _).
+      as (r1 & F & K & C & L & _ & _ & _ & _ & _ & Hcap1 & Hr1 & Hw1 & _).
     assert (EU1 : r_as_uninit v r1 = Ok (o, c)).
-    { rewrite (as_uninit_pure_ext v r r1 Hp); [exact EU|]. unfold rcap. exact Hlen. }
+    { rewrite (as_uninit_pure_ext v r r1 Hp); [exact EU|exact Hcap1]. }
     destruct (IH r1 o c Hr1 Hw1 EU1 Ht) as (r' & F' & K' & C' & L' & Hr' & Hw' & EU').
     exists r'. cbn [r_fills fold_left]. rewrite F. cbn [rbind].
     split; [exact F'|]. split; [congruence|]. rewrite <- C, <- L. auto.
@@ -454,7 +468,7 @@ Fixpoint vspec (ms : list root) (bs : list byte) : list root :=
   | [] => []
   | m :: r =>
     mkroot (rkind m) (write_at (rcells m) 0 (firstn (rcap m) bs))
-           (Nat.max (rlen m) (Nat.min (length bs) (rcap m)))
+           (Nat.max (rlen m) (Nat.min (length bs) (rcap m))) (rlim m)
       :: vspec r (skipn (rcap m) bs)
   end.
 
@@ -510,6 +524,7 @@ Proof.
   - rewrite with_len_same. unfold root_set_len. destruct Hr as [Hlc _].
     destruct (rkind r); try rewrite Nat.ltb_irrefl;
       try (destruct (Nat.leb_spec (rlen r) (rcap r)); [|lia]);
+      try rewrite (Nat.min_l (rlen r) (rcap r)) by lia;
       try rewrite with_len_same; reflexivity.
   - apply root_set_len_grow; [exact Hr|lia|exact H2].
 Qed.
@@ -565,7 +580,8 @@ Proof.
         rewrite (empty_tlen r Hemp) in Hlt. fold cap in Hmlc. lia. }
       assert (Hm' : rwf (root_write 0 (firstn cap bs) m)).
       { destruct Hm as [A B]. split; [rewrite Hcapw; exact A|]. intros K. rewrite Hcapw. apply B. exact K. }
-      rewrite (root_set_len_ge _ (Nat.min cap n) Hm') by (try rewrite Hcapw; cbn; lia).
+      assert (Hlenw : rlen (root_write 0 (firstn cap bs) m) = rlen m) by reflexivity.
+      rewrite (root_set_len_ge _ (Nat.min cap n) Hm') by (rewrite ?Hcapw, ?Hlenw; lia).
       cbn [rbind].
       replace (n - Nat.min cap n) with (length bs') by lia.
       assert (Hrest : default_set_len (swrite r bs') (length bs') = Ok (vspec r bs')).
@@ -597,14 +613,17 @@ Proof.
   exact (record_seq ms bs Hwf Hseq Hfit).
 Qed.
 
-Lemma vspec_member_cap (m : root) (bs : list byte) :
-  length (write_at (rcells m) 0 (firstn (rcap m) bs)) = rcap m.
-Proof. apply write_at_length. rewrite firstn_cap_len. unfold rcap. lia. Qed.
+Lemma vspec_member_cap (m : root) (bs : list byte) len :
+  rcap (mkroot (rkind m) (write_at (rcells m) 0 (firstn (rcap m) bs)) len (rlim m)) = rcap m.
+Proof.
+  apply rcap_same; [reflexivity| |reflexivity]. cbn [rcells].
+  apply write_at_length. rewrite firstn_cap_len. pose proof (rcap_le_cells m). lia.
+Qed.
 
 Lemma vspec_tcap ms : forall bs, tcap (vspec ms bs) = tcap ms.
 Proof.
   induction ms as [|m r IH]; intros bs; cbn [vspec tcap fold_right]; [reflexivity|].
-  unfold tcap in IH. rewrite IH. f_equal. unfold rcap at 1. cbn [rcells]. apply vspec_member_cap.
+  unfold tcap in IH. rewrite IH. f_equal. apply vspec_member_cap.
 Qed.
 
 Lemma vspec_wf ms : forall bs, Forall rwf ms -> Forall rwf (vspec ms bs).
@@ -612,8 +631,8 @@ Proof.
   induction ms as [|m r IH]; intros bs H; cbn [vspec]; [constructor|].
   inversion H as [|? ? [Hlc Ha] Hr]; subst. constructor; [|apply IH; exact Hr].
   assert (Hcap : rcap (mkroot (rkind m) (write_at (rcells m) 0 (firstn (rcap m) bs))
-                        (Nat.max (rlen m) (Nat.min (length bs) (rcap m)))) = rcap m)
-    by (unfold rcap at 1; cbn [rcells]; apply vspec_member_cap).
+                        (Nat.max (rlen m) (Nat.min (length bs) (rcap m))) (rlim m)) = rcap m)
+    by apply vspec_member_cap.
   unfold rwf. rewrite Hcap. cbn [rlen rkind]. split; [lia|].
   intros K. specialize (Ha K). lia.
 Qed.
@@ -630,8 +649,8 @@ Proof.
   induction ms as [|m r IH]; intros bs Hwf Hseq; cbn [vspec seqp]; [exact I|].
   inversion Hwf as [|? ? [Hlc _] Hr]; subst.
   assert (Hcap : rcap (mkroot (rkind m) (write_at (rcells m) 0 (firstn (rcap m) bs))
-                        (Nat.max (rlen m) (Nat.min (length bs) (rcap m)))) = rcap m)
-    by (unfold rcap at 1; cbn [rcells]; apply vspec_member_cap).
+                        (Nat.max (rlen m) (Nat.min (length bs) (rcap m))) (rlim m)) = rcap m)
+    by apply vspec_member_cap.
   destruct Hseq as [[Hfull Hs]|Hemp].
   - left. split; [rewrite Hcap; cbn; lia|apply IH; assumption].
   - destruct (Nat.le_gt_cases (rcap m) (length bs)) as [Hge|Hlt].
@@ -788,7 +807,7 @@ Theorem viter_first_fill pre m post bs :
   exists it',
     i_fill CList WBase VBase bs (it, ms) =
       Ok (it', pre ++ mkroot (rkind m) (write_at (rcells m) 0 bs)
-                             (Nat.max (rlen m) (length bs)) :: post).
+                             (Nat.max (rlen m) (length bs)) (rlim m) :: post).
 Proof.
   intros Hpre Hz Hm Hk ms it. pose proof Hm as [Hlc _].
   assert (EI : forall post' m', viter_init WBase it (pre ++ m' :: post') = Ok (length pre, 0, rlen m')).
@@ -821,4 +840,79 @@ Proof.
     unfold with_len, m1, root_write, with_cells. cbn. f_equal. lia.
   - eexists. f_equal. f_equal. f_equal. f_equal.
     unfold m1, root_write, with_cells. cbn. f_equal. cbn in Hge. lia.
+Qed.
+
+(* ---------------------------------------------------------------------- *)
+(* Slice<Slice<T>>::flatten denotes the same view                           *)
+
+Definition flat_end (b1 : nat) (e1 e2 : option nat) : option nat :=
+  match e2, e1 with
+  | Some s, Some l => Some (Nat.min (b1 + s) l)
+  | Some s, None => Some (b1 + s)
+  | None, l => l
+  end.
+
+Lemma sub_range_compose rg b1 e1 b2 e2 :
+  rbind (sub_range rg b1 e1) (fun rg1 => sub_range rg1 b2 e2)
+  = sub_range rg (b1 + b2) (flat_end b1 e1 e2).
+Proof.
+  destruct rg as [o l]. unfold sub_range at 1.
+  destruct (Nat.leb_spec b1 (Nat.min (match e1 with Some x => x | None => l end) l)) as [H1|H1];
+    cbn [rbind]; unfold sub_range, flat_end; destruct e1 as [x1|], e2 as [x2|];
+    repeat match goal with |- context [?a <=? ?b] => destruct (Nat.leb_spec a b) end;
+    try lia; try reflexivity; f_equal; f_equal; lia.
+Qed.
+
+Theorem flatten_same_view v v' :
+  flatten_view v = Some v' -> forall r,
+  r_as_init v' r = r_as_init v r /\ r_as_uninit v' r = r_as_uninit v r /\
+  (forall k, r_set_len v' k r = r_set_len v k r) /\
+  (wf v r -> wf v' r) /\ (pure v -> pure v') /\
+  (uninit_filled v' r <-> uninit_filled v r).
+Proof.
+  destruct v as [|[|v0 b1 e1|] b2 e2|]; cbn [flatten_view]; try discriminate.
+  intros E r. inversion E; subst v'. clear E. fold (flat_end b1 e1 e2).
+  unfold r_as_init, r_as_uninit, r_set_len.
+  split; [|split; [|split; [|split; [|split]]]].
+  - cbn [as_init]. destruct (as_init root_init v0 r) as [rg|c]; cbn [rbind]; [|reflexivity].
+    symmetry. apply sub_range_compose.
+  - cbn [as_uninit]. destruct (as_uninit root_init root_uninit v0 r) as [rg|c]; cbn [rbind]; [|reflexivity].
+    symmetry. apply sub_range_compose.
+  - intros k. cbn [set_len]. f_equal. lia.
+  - cbn [wf]. intros ((Hw0 & (l0 & Hl0 & Hb1) & He1) & (l1 & Hl1 & Hb2) & He2).
+    split; [exact Hw0|].
+    apply buf_len_as_init in Hl1. destruct Hl1 as [o1 Hl1]. unfold r_as_init in Hl1. cbn [as_init] in Hl1.
+    apply buf_len_as_init in Hl0. destruct Hl0 as [o0 Hl0]. unfold r_as_init in Hl0.
+    rewrite Hl0 in Hl1. cbn [rbind] in Hl1. apply sub_range_ok in Hl1. destruct Hl1 as (Hb & _ & ->).
+    unfold rel_end in *. split.
+    + exists l0. split; [apply buf_len_as_init; eexists; exact Hl0|]. destruct e1; lia.
+    + unfold flat_end. destruct e1, e2; lia.
+  - cbn [pure]. auto.
+  - cbn [uninit_filled]. tauto.
+Qed.
+
+(* ---------------------------------------------------------------------- *)
+(* pool buffers: BufferRef::set_capacity                                    *)
+
+Theorem pool_set_capacity_spec r n :
+  rkind r = KPool -> rwf r ->
+  let r' := pool_set_capacity n r in
+  let full := length (rcells r) in
+  rkind r' = KPool /\ rcells r' = rcells r /\
+  (n = 0%N -> r' = r) /\
+  (n <> 0%N ->
+     rcap r' = Nat.min (N.to_nat n) full /\ rlen r' = Nat.min (rlen r) (rcap r')) /\
+  rwf r' /\ rcap r' <= full.
+Proof.
+  intros K [Hlc _]. cbn zeta. unfold pool_set_capacity. rewrite K.
+  destruct (N.eqb_spec n 0) as [->|Hn].
+  - repeat split; auto; try congruence. apply rcap_le_cells.
+  - set (c := N.to_nat (N.min n (N.of_nat (length (rcells r))))).
+    assert (Hc : c = Nat.min (N.to_nat n) (length (rcells r))) by (unfold c; lia).
+    assert (Hcap : rcap (mkroot KPool (rcells r) (Nat.min (rlen r) c) c) = c)
+      by (unfold rcap; cbn; lia).
+    split; [reflexivity|]. split; [reflexivity|]. split; [intros; contradiction|].
+    split; [intros _; rewrite Hcap; split; [exact Hc|reflexivity]|].
+    split; [|rewrite Hcap; lia].
+    split; [rewrite Hcap; cbn; lia|discriminate].
 Qed.
